@@ -34,22 +34,18 @@ theorem sysOpen_flagsFor (nc : Bool) (s : Sys) (k : Kind) (p : Path) :
     | none => simp [isReg, hfs, sysOpen, mkOfd]
     | some n => cases n <;> simp [isReg, hfs, sysOpen, mkOfd]
 
-theorem outErrTo_eq (P O : Table) (s : Sys) (p : Path) (a : Bool) :
-    (outErrTo O s p a).map (fun x => (flatten P x.1, x.2)) = outErr false (flatten P O) s p a := by
-  cases a
-  · simp only [outErrTo, outErr, openFor, Bool.not_false, Bool.false_eq_true, ↓reduceIte]
-    cases sysOpen s p { wr := true, creat := true, trunc := true } with
-    | none => rfl
-    | some x => simp [flatten_setT_open, H.ofd]
-  · simp only [outErrTo, outErr, openFor, Bool.not_true, ↓reduceIte]
-    cases sysOpen s p { wr := true, creat := true, app := true } with
-    | none => rfl
-    | some x => simp [flatten_setT_open, H.ofd]
+theorem outErrFlags_write (nc e : Bool) : outErrFlags nc e false = flagsFor nc e .write := by
+  cases nc <;> simp [outErrFlags, flagsFor]
 
-theorem outErrTo_append_eq (nc : Bool) (P O : Table) (s : Sys) (p : Path) :
-    (outErrTo O s p true).map (fun x => (flatten P x.1, x.2)) = outErr nc (flatten P O) s p true := by
-  simp only [outErrTo, outErr, openFor, Bool.not_true, ↓reduceIte]
-  cases sysOpen s p { wr := true, creat := true, app := true } with
+/-- `&>`, `&>>`, `>&word`: brush's single open is the reference's -/
+theorem outErrTo_eq (nc : Bool) (P O : Table) (s : Sys) (p : Path) (a : Bool) :
+    (outErrTo nc O s p a).map (fun x => (flatten P x.1, x.2)) = outErr nc (flatten P O) s p a := by
+  have h : sysOpen s p (outErrFlags nc (isReg s p) a) = openFor nc s (if a then Kind.append else Kind.write) p := by
+    cases a
+    · rw [outErrFlags_write]; exact sysOpen_flagsFor nc s .write p
+    · simp [outErrFlags, openFor]
+  simp only [outErrTo, outErr, h]
+  cases openFor nc s (if a then Kind.append else Kind.write) p with
   | none => rfl
   | some x => simp [flatten_setT_open, H.ofd]
 
